@@ -47,7 +47,14 @@ def _case(draw):
     )
 
 
-def strategy(ctx):
+STRATIFIED = True
+
+
+def strategy(ctx, shard=0):
+    if shard % 4 == 3:
+        from vp import editmachine as em
+
+        return em.st_program(max_points=5, max_edits=20, samplers=False, forks=False).map(lambda c: dict(c, kind="edit", outlier_prior=max(c["outlier_prior"], 0.1)))
     return _case()
 
 
@@ -59,9 +66,38 @@ def warmup():
     evaluate(dict(mtree=dict(blocks=[[0], [1]], parent=[-1, 0], outliers=[]), other=dict(blocks=[[0, 1]], parent=[-1], outliers=[]), alpha=1.0, prior=0.0, prior_mask=[True], sizes=[1], dims=1, G=3, values=dict(seed=1, regime="moderate", scale=1.0), reps=[dict(sib=[0], style="post", relabel=False)]))
 
 
+def _evaluate_edit(case):
+    """identity (==, hash) must follow (clades, outliers) at every state of an edit history, including the
+    intermediate states inside a move (a data point removed, not yet re-added)"""
+    from vp import editmachine as em
+    from vp.model import to_tree_grid
+
+    n_probe = [0]
+
+    def same(m, tree, model, label):
+        n_probe[0] += 1
+        mt = model.to_mtree()
+        fresh = to_tree_grid(mt, m.data, m.grid)
+        if not (tree == fresh) or hash(tree) != hash(fresh):
+            raise Violation("identity/history", "%s: the tree %r does not compare/hash equal to a freshly built tree with the same clades and outliers" % (label, mt), dict(where=label))
+        if mt.outliers:
+            other = MTree(mt.blocks, mt.parent, mt.outliers[1:])
+            if tree == to_tree_grid(other, m.data, m.grid):
+                raise Violation("identity/history", "%s: the tree %r compares equal to a tree with one outlier fewer" % (label, mt), dict(where=label))
+
+    def on_step(m, i, name):
+        same(m, m.tree, m.model, "after step %d (%s)" % (i, name))
+
+    m = em.Machine(case, on_step=on_step, probe=lambda mach, t, model, label: same(mach, t, model, "inside move_point, " + label)).run()
+    classes = ["kind:edit-history"] + (["move-out-of-outliers"] if "move-out-of-outliers" in m.classes else [])
+    return Outcome(nontrivial=m.removal_seen, classes=tuple(classes), info=dict(kind="edit", applied=m.applied), weight=n_probe[0])
+
+
 def evaluate(case):
     from phyclone.tree import FSCRPDistribution, TreeJointDistribution
 
+    if case.get("kind") == "edit":
+        return _evaluate_edit(case)
     gen.clear_caches()
     mt = MTree.from_json(case["mtree"])
     n = len(mt.all_data())
